@@ -17,11 +17,12 @@ def uf_native(which):
 
 def C05():
     from units import uf
+    gn = gen_native()
     from units import gen
     parts = [ProofPart(uf, 'UF(eqlog-runtime)', {'which': 0}, native=uf_native(0)),
              ProofPart(uf, 'UF(eqlog)', {'which': 1}, native=uf_native(1)),
-             ProofPart(gen, 'GEN', native=gen_native()),
-             ProofPart(gen, 'GEN-define', {'part': 'define'})]
+             ProofPart(gen, 'GEN', native=gn),
+             ProofPart(gen, 'GEN-define', {'part': 'define'}, native=gn)]
     return {
         'level': 'proof', 'parts': parts,
         'samples': uf.SAMPLES,
@@ -98,8 +99,9 @@ def gen_native():
 
 def C04():
     from units import gen
+    gn = gen_native()
     return {
-        'level': 'proof', 'parts': [ProofPart(gen, 'GEN', native=gen_native())], 'samples': gen.SAMPLES, 'always_native': True,
+        'level': 'proof', 'parts': [ProofPart(gen, 'GEN', native=gn), ProofPart(gen, 'GEN-move', {'part': 'move'}, native=gn)], 'samples': gen.SAMPLES, 'always_native': True,
         'assumptions': gen.ASSUMPTIONS + ['the statements of C04 about the state AFTER close() (iterators, canonical elements, agreement of query paths) are covered by the bounded native sweep only'],
     }
 
